@@ -12,7 +12,7 @@ import (
 	"verifharness/internal/val"
 )
 
-var c08Floor = []string{"depth.2", "depth.3", "inner.empty", "outer.empty", "mid.empty", "ragged", "where", "item.alias", "item.nonidempotent", "item.star", "item.async", "item.userfn", "mix", "mix.keep", "reexec.after-fault", "opt.vars", "opt.constants", "item.aggregate", "item.all-aggregate", "where.aggregate", "reexec", "naming.table-qualified", "naming.alias", "naming.alias-unqualified", "row.shadows-table", "where.in-computed"}
+var c08Floor = []string{"depth.2", "depth.3", "inner.empty", "outer.empty", "mid.empty", "ragged", "where", "item.alias", "item.nonidempotent", "item.star", "item.async", "item.userfn", "mix", "mix.keep", "reexec.after-fault", "opt.vars", "opt.constants", "item.aggregate", "item.all-aggregate", "where.aggregate", "reexec", "naming.table-qualified", "naming.alias", "naming.alias-unqualified", "row.shadows-table", "where.in-computed", "keep.no-function"}
 
 func init() {
 	fw.Register(&fw.Prop{
@@ -450,6 +450,26 @@ func c08Run(c *fw.Case) {
 		if !(len(k.Rows) == 0 && len(wantK) == 0) && !val.SameSeq(k.Rows, wantK) {
 			c.Violate("mix-differs", fmt.Sprintf("`%s` returned %s, the concatenation of the first %d inner results is %s", ksql, short(val.Canon(k.Rows), 250), K, short(val.Canon(wantK), 250)), detK)
 			return
+		}
+		// the keep=> step without a function in front: the first K inner arrays, nested as they are
+		if depth == 2 && K > 0 {
+			nsql := fmt.Sprintf("SELECT %s FROM `mm[keep=>(0:%d)]`%s%s", sel, K, as, where)
+			n := Run(val.CopyMap(doc), nsql, opts()...)
+			waitBackground()
+			evals++
+			feats = append(feats, "keep.no-function")
+			detN := map[string]any{"sql": nsql, "doc": doc, "observed": n.Describe()}
+			bad := !n.OK() || len(n.Rows) != K
+			for i := 0; !bad && i < K; i++ {
+				inner, ok := n.Rows[i].([]any)
+				if !ok && n.Rows[i] != nil || !(len(inner) == 0 && len(concatBy[i]) == 0) && !val.SameSeq(inner, concatBy[i]) {
+					bad = true
+				}
+			}
+			if bad {
+				c.Violate("inner-differs", fmt.Sprintf("`%s` returned %s, the results of the first %d inner arrays are %s", nsql, short(val.Canon(n.Rows), 250), K, short(val.Canon(concatBy[0]), 250)+" ..."), detN)
+				return
+			}
 		}
 	}
 	if nonEmptyInner >= 2 && rejected {
